@@ -437,6 +437,17 @@ def stepXf (st : DState) (cmd : String) (args : List String) : DState × String 
       | _, _, _, _ => (st, "bad-op")
   | _ => (st, "bad-op")
 
+def stepPs (st : DState) (cmd : String) (args : List String) : DState × String :=
+  match cmd with
+  -- ps.keys surr=1 mf=0 ...   → keys written by Component.serialize (sorted)
+  | "ps.keys" =>
+      let get := fun (k : String) => args.any fun a => a == k ++ "=1"
+      let f : CompFlags := { surr := get "surr", mf := get "mf", df := get "df", sf := get "sf", act := get "act",
+                             cand := get "cand", costs := get "costs", ctrain := get "ctrain", ctest := get "ctest",
+                             states := get "states", mcost := get "mcost", cu := get "cu", ru := get "ru", name := get "name" }
+      (st, " ".intercalate (sortBy (fun a b => a < b) (serializeKeys f)))
+  | _ => (st, "bad-op")
+
 def step (st : DState) (line : String) : DState × String :=
   match (line.trimAscii.toString.splitOn " ").filter (· ≠ "") with
   | [] => (st, "")
@@ -450,6 +461,7 @@ def step (st : DState) (line : String) : DState × String :=
       else if cmd.startsWith "fpi." then stepFpi st cmd args
       else if cmd.startsWith "shp." then stepShp st cmd args
       else if cmd.startsWith "xf." then stepXf st cmd args
+      else if cmd.startsWith "ps." then stepPs st cmd args
       else (st, "bad-op")
 
 partial def loop (h : IO.FS.Stream) (out : IO.FS.Stream) (st : DState) : IO Unit := do
